@@ -423,3 +423,135 @@ func c18Shared(r *fw.Run, p *fw.Program) {
 		})
 	}
 }
+
+// ---------------------------------------------------------------------------
+// C18.stateful: no package-level object of a stateful, not goroutine-safe library type
+//
+// Rule template: library types whose methods mutate the receiver and that are documented as not safe for
+// concurrent use (text decoders/encoders and transformers, hashes, buffers, buffered and compressed readers,
+// random sources, cipher streams, csv/json stream codecs) must be created per decode. A package-level variable
+// (directly, or as element / field of a container reachable from it) of such a type is shared by every decode of
+// the process: results depend on what other decodes did to it and concurrent decodes race.
+
+var c18StatefulTypes = map[string]string{
+	"golang.org/x/text/encoding.Decoder":    "stateful text decoder (e.g. remembers the UTF-16 byte order mark)",
+	"golang.org/x/text/encoding.Encoder":    "stateful text encoder",
+	"golang.org/x/text/transform.Reader":    "stateful transforming reader",
+	"golang.org/x/text/transform.Writer":    "stateful transforming writer",
+	"bytes.Buffer":                          "mutable buffer",
+	"strings.Builder":                       "mutable builder",
+	"bufio.Reader":                          "buffered reader with a cursor",
+	"bufio.Writer":                          "buffered writer",
+	"bufio.Scanner":                         "scanner with a cursor",
+	"math/rand.Rand":                        "random source (not goroutine-safe)",
+	"encoding/csv.Reader":                   "stream reader with a cursor",
+	"encoding/csv.Writer":                   "stream writer",
+	"encoding/json.Decoder":                 "stream decoder with a cursor",
+	"encoding/json.Encoder":                 "stream encoder",
+	"encoding/xml.Decoder":                  "stream decoder with a cursor",
+	"encoding/xml.Encoder":                  "stream encoder",
+	"compress/flate.Writer":                 "compressor state",
+	"compress/gzip.Reader":                  "decompressor state",
+	"compress/gzip.Writer":                  "compressor state",
+	"compress/zlib.Writer":                  "compressor state",
+	"github.com/wader/fq/pkg/bitio.Buffer":  "bit buffer with cursors",
+	"github.com/wader/fq/pkg/decode.D":      "decoder state of one decode",
+	"github.com/wader/fq/pkg/decode.Value":  "node of one decode tree",
+	"github.com/wader/fq/pkg/interp.Interp": "interpreter state",
+}
+
+// stateful interfaces: a package-level variable of these interface types holds a stateful object
+var c18StatefulIfaces = map[string]string{
+	"hash.Hash":                             "running hash state",
+	"hash.Hash32":                           "running hash state",
+	"hash.Hash64":                           "running hash state",
+	"crypto/cipher.Stream":                  "key stream position",
+	"crypto/cipher.BlockMode":               "chaining state",
+	"golang.org/x/text/transform.Transformer": "stateful transformer",
+	"io.Reader":                             "reader with a cursor",
+	"io.ReadSeeker":                         "reader with a cursor",
+	"io.Writer":                             "writer",
+}
+
+func c18Stateful(r *fw.Run, p *fw.Program) {
+	ru := r.Rule("C18.stateful", "no package-level variable of the fq module is, contains (map/slice/array element, pointer target, struct field of an fq type; depth 4) or is an interface holding a stateful library object that is not safe to share: text decoders/encoders, transformers, hashes, buffers, buffered/compressed/stream readers and writers, random sources, cipher streams, decoder/interpreter state; such objects are created per decode", 800)
+	var find func(t types.Type, depth int, seen map[types.Type]bool) string
+	find = func(t types.Type, depth int, seen map[types.Type]bool) string {
+		if depth > 4 || seen[t] {
+			return ""
+		}
+		seen[t] = true
+		if n, ok := t.(*types.Named); ok && n.Obj().Pkg() != nil {
+			full := n.Obj().Pkg().Path() + "." + n.Obj().Name()
+			if o := n.Origin(); o != nil && o.Obj().Pkg() != nil {
+				full = o.Obj().Pkg().Path() + "." + o.Obj().Name()
+			}
+			if why, ok := c18StatefulTypes[full]; ok {
+				return full + " (" + why + ")"
+			}
+			if _, isI := n.Underlying().(*types.Interface); isI {
+				if why, ok := c18StatefulIfaces[full]; ok {
+					return full + " (" + why + ")"
+				}
+				return ""
+			}
+			if !strings.HasPrefix(n.Obj().Pkg().Path(), fw.Mod) {
+				// other library types: only look at pointers/containers of the denylisted ones directly
+				switch u := n.Underlying().(type) {
+				case *types.Struct:
+					_ = u
+					return ""
+				}
+			}
+		}
+		switch u := t.Underlying().(type) {
+		case *types.Pointer:
+			return find(u.Elem(), depth+1, seen)
+		case *types.Slice:
+			return find(u.Elem(), depth+1, seen)
+		case *types.Array:
+			return find(u.Elem(), depth+1, seen)
+		case *types.Map:
+			if s := find(u.Key(), depth+1, seen); s != "" {
+				return s
+			}
+			return find(u.Elem(), depth+1, seen)
+		case *types.Struct:
+			for i := 0; i < u.NumFields(); i++ {
+				if s := find(u.Field(i).Type(), depth+1, seen); s != "" {
+					return "field " + u.Field(i).Name() + ": " + s
+				}
+			}
+		}
+		return ""
+	}
+	for _, pk := range p.SSA.AllPackages() {
+		if !strings.HasPrefix(pk.Pkg.Path(), fw.Mod) {
+			continue
+		}
+		var names []string
+		for name, m := range pk.Members {
+			if _, ok := m.(*ssa.Global); ok && !strings.HasPrefix(name, "init$") {
+				names = append(names, name)
+			}
+		}
+		sort.Strings(names)
+		for _, name := range names {
+			g := pk.Members[name].(*ssa.Global)
+			rel := strings.TrimPrefix(strings.TrimPrefix(pk.Pkg.Path(), fw.Mod), "/")
+			key := rel + "." + name
+			t := g.Type().(*types.Pointer).Elem()
+			if s := find(t, 0, map[types.Type]bool{}); s != "" {
+				if reason, ok := c18StatefulExceptions[key]; ok {
+					ru.Except(key, p.Rel(g.Pos()), reason)
+					continue
+				}
+				ru.Fail(key, p.Rel(g.Pos()), "package-level variable holds "+s+": it is shared by every decode of the process (results depend on earlier decodes, concurrent decodes race); create it per decode")
+			} else {
+				ru.Ok(key, p.Rel(g.Pos()), "no stateful library object")
+			}
+		}
+	}
+}
+
+var c18StatefulExceptions = map[string]string{}
